@@ -162,6 +162,40 @@ def scalarized(project, func, only_worker_classes=True):
     return out
 
 
+def _tuple_elements(f, expr, depth=0):
+    """The element expressions of a tuple-valued expression built from literals: a tuple / list display, a local name bound once
+    to one, tuple(..) / list(..) of one, and `+` of such.  None when it is anything else."""
+    if depth > 4:
+        return None
+    if isinstance(expr, (ast.Tuple, ast.List)):
+        if any(isinstance(e, ast.Starred) for e in expr.elts):
+            out = []
+            for e in expr.elts:
+                if isinstance(e, ast.Starred):
+                    sub = _tuple_elements(f, e.value, depth + 1)
+                    if sub is None:
+                        return None
+                    out.extend(sub)
+                else:
+                    out.append(e)
+            return out
+        return list(expr.elts)
+    if isinstance(expr, ast.Name):
+        defs = [n for n in own_nodes(f.node) if isinstance(n, ast.Assign) and len(n.targets) == 1 and isinstance(n.targets[0], ast.Name) and n.targets[0].id == expr.id]
+        stores = [n for n in own_nodes(f.node) if isinstance(n, ast.Name) and n.id == expr.id and isinstance(n.ctx, ast.Store)]
+        if len(defs) == 1 and len(stores) == 1:
+            return _tuple_elements(f, defs[0].value, depth + 1)
+        return None
+    if isinstance(expr, ast.Call) and isinstance(expr.func, ast.Name) and expr.func.id in ("tuple", "list") and len(expr.args) == 1 and not expr.keywords:
+        return _tuple_elements(f, expr.args[0], depth + 1)
+    if isinstance(expr, ast.BinOp) and isinstance(expr.op, ast.Add):
+        a, b = _tuple_elements(f, expr.left, depth + 1), _tuple_elements(f, expr.right, depth + 1)
+        if a is None or b is None:
+            return None
+        return a + b
+    return None
+
+
 def discover_stages(project):
     """Every function containing ``<mp>.Process(target=F, args=(...))``."""
     stages = []
@@ -210,12 +244,11 @@ def discover_stages(project):
             if st.worker is not None:
                 st.worker = splice(project, st.worker)
             args = [k.value for k in pc.keywords if k.arg == "args"]
-            if args and isinstance(args[0], ast.Name):
-                # args=<local name bound once to a tuple literal>
-                defs = [n for n in own_nodes(f.node) if isinstance(n, ast.Assign) and len(n.targets) == 1
-                        and isinstance(n.targets[0], ast.Name) and n.targets[0].id == args[0].id]
-                if len(defs) == 1 and isinstance(defs[0].value, (ast.Tuple, ast.List)):
-                    args = [defs[0].value]
+            if args and not isinstance(args[0], (ast.Tuple, ast.List)):
+                # args=<local name bound once to a tuple literal>, (q, ev) + tuple(extra), ...
+                elts = _tuple_elements(f, args[0])
+                if elts is not None:
+                    args = [ast.copy_location(ast.Tuple(elts=elts, ctx=ast.Load()), args[0])]
             if st.worker is not None and args and isinstance(args[0], (ast.Tuple, ast.List)):
                 for p, e in zip(st.worker.params(), args[0].elts):
                     st.binding[p] = e
@@ -522,6 +555,55 @@ def delegate(run, rule, sub_prop, fn, only_rules=None, note=""):
 
 
 # ---------------------------------------------------------------------------
+# an option the caller has in hand reaches every callee that takes it
+
+def option_forwarding(run, rule, name, modules, consequence):
+    """For every call in *modules* whose (resolved) callee has a parameter *name*: a caller that holds the option itself -- a
+    parameter of that name, or `self.<name>` set from one by its constructor -- passes it on (keyword, positional or through
+    its keyword dictionary).  Leaving it out silently selects the callee's default.  Returns the number of call sites examined."""
+    from sa import sym as _sym
+    project = run.project
+    n = 0
+    for f in project.py_funcs():
+        if f.module.name not in modules or "/tests/" in (f.module.relpath or ""):
+            continue
+        holds_it = name in f.params() or any(isinstance(x, ast.Attribute) and x.attr == name and isinstance(x.value, ast.Name) and x.value.id == "self"
+                                              for x in own_nodes(f.node))
+        if not holds_it and f.cls is not None:
+            holds_it = any(isinstance(x, ast.Attribute) and x.attr == name and isinstance(x.value, ast.Name) and x.value.id == "self" and isinstance(x.ctx, ast.Store)
+                           for g in project.py_funcs() if g.cls is f.cls for x in own_nodes(g.node))
+        calls = [c for c in own_calls(f.node)]
+        if not calls:
+            continue
+        ev = _sym.make_evaluator(project, f.module.name, [])
+        ev.self_class = (f.module.name + "." + f.cls.name) if f.cls is not None else None
+        try:
+            r = ev.run(f.node)
+        except Exception:
+            continue
+        for e in r.events:
+            if e.kind != "call":
+                continue
+            g, binding = ev.bound_args(e.term)
+            if g is None or name not in g.params() + [x.arg for x in g.node.args.kwonlyargs]:
+                continue
+            n += 1
+            run.call_sites += 1
+            run.note_func(f)
+            star = [v for k, v in e.term[3] if k == "**"]
+            if binding is None:
+                run.undecided(rule, f, e.node, "cannot bind the arguments of %s" % show(e.term)[:80], kind="option-binding-" + name)
+            elif name in binding or star:
+                run.holds(rule, f, e.node, "%s passes %s on to %s" % (f.short, name, g.short), option=name)
+            elif holds_it:
+                run.violated(rule, f, e.node, "%s calls %s without the `%s` setting it holds: the callee uses its default, %s" % (f.short, g.short, name, consequence),
+                             kind="option-dropped-" + name, option=name)
+            else:
+                run.holds(rule, f, e.node, "%s has no `%s` of its own; %s uses its documented default" % (f.short, name, g.short), option=name)
+    return n
+
+
+# ---------------------------------------------------------------------------
 # who starts worker processes (transitively), and which `with` blocks keep them alive
 
 def _class_entry_funcs(project, func, name_node):
@@ -743,6 +825,27 @@ def project_names(project):
             tab.setdefault(q.rsplit(".", 1)[-1], [])
         tab.setdefault("<built>", [])
     return tab
+
+
+def unfollowed_project_calls(project, term):
+    """Sub-terms of *term* that are calls of something the project defines and that the evaluator left as calls (not inlined): what
+    they return is unknown, so a comparison of such a term with an expected form decides nothing."""
+    names = project_names(project)
+    out = []
+
+    def walk(t):
+        if isinstance(t, tuple):
+            if t and t[0] == "call" and len(t) == 4:
+                f = t[1]
+                nm = f[1] if f[0] == "sym" else (f[2] if f[0] == "attr" else None)
+                lib = f[0] == "attr" and f[1] in (("sym", "np"), ("sym", "numpy"), ("sym", "math"), ("sym", "os"), ("sym", "u"))
+                if nm in names and nm not in _LIBRARY_METHOD_NAMES and not lib:
+                    out.append(t)
+            for x in t:
+                if isinstance(x, tuple):
+                    walk(x)
+    walk(term)
+    return out
 
 
 def opaque_project_calls(project, result, objs):
